@@ -17,6 +17,18 @@ STRENGTHENED = {
  "C15-4": "the system back end was always substituted: histories with the library's real Linux back end under the getrandom-failing LD_PRELOAD shim added",
  "C04-3": "PrfShort lengths were in-range: declared lengths up to SIZE_MAX with small buffers added (must be refused untouched)",
  "C17-4": "hex helper inputs had no white space: added; this also exposed that Model/Cppm.v still described the pre-fix helper (model corrected, DESIGN 8.4)",
+ "C01-5": "C01 had no multi-packet sessions on one incremental object: packet sessions compared with the one-shot result under N+i added",
+ "C01-6": "key/data share pair 4/3 was in no C01 build: added to the quick tier (C10 did catch it)",
+ "C03-5": "no request of 2^32 bytes or more: thorough tier now runs harness/x_huge.c (one-call squeeze/absorb of 2^32+k bytes against chunked calls); quick tier cannot afford 4 GiB",
+ "C03-6": "declared lengths skipped values whose bit count equals a special byte count: 2, 4, 8, 255, 256 added",
+ "C04-5": "the PRF object was only used one-shot in C04 (C07 did catch it): incremental absorb calls straddling the 32-byte block added",
+ "C06-5": "quick tier had no generic-backend build (its SnP macros are a separate variant): added",
+ "C06-6": "messages of 2^32 bytes or more: thorough tier x_huge (SIV: no unencrypted run anywhere in 2^32+24 bytes, round trip)",
+ "C02-5": "associated data of 2^32 bytes or more: thorough tier x_huge (ISAP: flipped AD bits and the AD cut to its length mod 2^32 must be rejected)",
+ "C13-6": "C++ objects were destroyed as their concrete type only: now alternately through the abstract ascon::aead interface",
+ "C15-6": "storage read and write callbacks always failed together: independent outcomes added",
+ "C18-5": "the AArch64 front end passed first_round as a clean constant: AAPCS64 leaves the upper register bits of a uint8_t argument unspecified - now a symbolic word that only an explicit masking instruction turns into the constant",
+ "C19-5": "output files never pre-existed with longer content: existing-longer-output cases added (decrypt over it, re-encrypt over an older image)",
 }
 rows = []
 for d in sorted(glob.glob(os.path.join(V, "seeded", "*"))):
